@@ -194,6 +194,7 @@ static void s_orderly_close(void)
     P("readiness after peer FIN", c, POLLIN | POLLOUT);
     R("send after peer FIN (1st)", send(c, "abc", 3, MSG_NOSIGNAL));
     settle();
+    P("readiness once the RST is in", c, POLLIN | POLLOUT);
     R("send after peer FIN (2nd)", send(c, "abc", 3, MSG_NOSIGNAL));
     R("recv queued byte", recv(c, buf, sizeof buf, 0));
     R("recv after that", recv(c, buf, sizeof buf, 0));
